@@ -208,36 +208,54 @@ def chr_alts(name, vals):
     return [E(name)] + [E(name, val=v) for v in vals]
 
 
-def structures(ops):
+def structures(ops, only=None):
     """every structural element of the vocabulary, each optional child/attribute present or absent,
-    operands drawn from `ops` (lists of element descriptions wrapped into the operand element)"""
+    operands drawn from `ops` (lists of element descriptions wrapped into the operand element);
+    only: just the structures with that tag (same elements, same order, the others are not built)"""
+    for s_ in _structures(ops, (lambda t: True) if only is None else (lambda t: t == only)):
+        if only is None or s_[0] == only:
+            yield s_
+
+
+def _structures(ops, want):
     def W(name):
         return opt(*[E(name, *o) for o in ops])
-    yield from mk("f", opt(E("fPr", E("type", val="bar"))), W("num"), W("den"))
-    yield from mk("sSup", W("e"), W("sup"))
-    yield from mk("sSub", W("e"), W("sub"))
-    yield from mk("sSubSup", W("e"), W("sub"), W("sup"))
-    yield from mk("rad", opt(E("radPr", E("degHide", val="1"))), W("deg"), W("e"))
-    npr = [None, E("naryPr")] + [E("naryPr", c) for c in chr_alts("chr", ["∫", "∏", "", "α", "∐"])]
-    yield from mk("nary", npr, W("sub"), W("sup"), W("e"))
-    dpr = [None, E("dPr")] + [E("dPr", *[x for x in (b, e) if x is not None])
-                               for b in opt(*chr_alts("begChr", ["[", "", "|"])) for e in opt(*chr_alts("endChr", ["]", ""]))
-                               if b is not None or e is not None]
-    for pr in dpr:
-        for n in (0, 1, 2):
-            for es in itertools.product([E("e", *o) for o in ops[:3]], repeat=n):
-                yield E("d", *([pr] if pr is not None else []), *es)
-    for rows in ([], [[0]], [[0, 1]], [[0], [1]], [[0, 1], [1, 0]], [[]]):
-        yield E("m", *[E("mr", *[E("e", *ops[i % len(ops)]) for i in r]) for r in rows])
-    for j in range(2, len(ops)):                 # every operand option sits in a matrix cell at least once
-        yield E("m", E("mr", E("e", *ops[j])))
-        yield E("m", E("mPr", E("mcs")), E("mr", E("e", run("p")), E("e", *ops[j])), E("mr", E("e", *ops[j - 1]), E("e", run("q"))))
+    if want("f"):
+        yield from mk("f", opt(E("fPr", E("type", val="bar"))), W("num"), W("den"))
+    if want("sSup"):
+        yield from mk("sSup", W("e"), W("sup"))
+    if want("sSub"):
+        yield from mk("sSub", W("e"), W("sub"))
+    if want("sSubSup"):
+        yield from mk("sSubSup", W("e"), W("sub"), W("sup"))
+    if want("rad"):
+        yield from mk("rad", opt(E("radPr", E("degHide", val="1"))), W("deg"), W("e"))
+    if want("nary"):
+        npr = [None, E("naryPr")] + [E("naryPr", c) for c in chr_alts("chr", ["∫", "∏", "", "α", "∐"])]
+        yield from mk("nary", npr, W("sub"), W("sup"), W("e"))
+    if want("d"):
+        dpr = [None, E("dPr")] + [E("dPr", *[x for x in (b, e) if x is not None])
+                                   for b in opt(*chr_alts("begChr", ["[", "", "|"])) for e in opt(*chr_alts("endChr", ["]", ""]))
+                                   if b is not None or e is not None]
+        for pr in dpr:
+            for n in (0, 1, 2):
+                for es in itertools.product([E("e", *o) for o in ops[:3]], repeat=n):
+                    yield E("d", *([pr] if pr is not None else []), *es)
+    if want("m"):
+        for rows in ([], [[0]], [[0, 1]], [[0], [1]], [[0, 1], [1, 0]], [[]]):
+            yield E("m", *[E("mr", *[E("e", *ops[i % len(ops)]) for i in r]) for r in rows])
+        for j in range(2, len(ops)):                 # every operand option sits in a matrix cell at least once
+            yield E("m", E("mr", E("e", *ops[j])))
+            yield E("m", E("mPr", E("mcs")), E("mr", E("e", run("p")), E("e", *ops[j])), E("mr", E("e", *ops[j - 1]), E("e", run("q"))))
     yield from flagged()
     yield from with_properties()
-    yield from mk("func", opt(E("fName", run("sin")), E("fName", run(" lim ")), E("fName", run("f")), E("fName")), W("e"))
-    yield from mk("bar", opt(E("barPr", E("pos", val="top"))), W("e"))
-    apr = [None, E("accPr")] + [E("accPr", c) for c in chr_alts("chr", ["̃", "⃗", "x", ""])]
-    yield from mk("acc", apr, W("e"))
+    if want("func"):
+        yield from mk("func", opt(E("fName", run("sin")), E("fName", run(" lim ")), E("fName", run("f")), E("fName")), W("e"))
+    if want("bar"):
+        yield from mk("bar", opt(E("barPr", E("pos", val="top"))), W("e"))
+    if want("acc"):
+        apr = [None, E("accPr")] + [E("accPr", c) for c in chr_alts("chr", ["̃", "⃗", "x", ""])]
+        yield from mk("acc", apr, W("e"))
 
 
 FLAG_VALS = [None, "1", "0", "on", "off", "true", "false", "Off ", "TRUE"]
@@ -622,11 +640,9 @@ def template_scope(tag):
     d1 = [s for s in structures(FREE_OPS)]
     yield from (s for s in d1 if s[0] == tag)
     yield from (s for s in one_slot(RICH + RICH2) if s[0] == tag)
+    yield from (s for s in towers() if s[0] == tag)        # (few; before the large product below)
     reps = RICH + representatives(d1)
-    for s in structures([[r] for r in reps]):
-        if s[0] == tag:
-            yield s
-    yield from (s for s in towers() if s[0] == tag)
+    yield from structures([[r] for r in reps], only=tag)
 
 
 def template_check(fn, conv, s):
